@@ -278,6 +278,8 @@ class Tr:
             return "guard"
         if t.endswith("::element &") or t.endswith("::element"):
             return "eref"
+        if t.endswith("::element *"):
+            return "eptr"          # pointer to an element: None = nullptr, Some i = &m_elements[i] / the node i
         if t.endswith("::value_type &") and "::element>" in t and "__alloc_traits<" in t:
             return "eref"          # auto& e = m_elements[i]: the vector's reference type, spelled through its allocator traits
         if t in ("size_t", "unsigned long", "std::size_t") or "size_type" in t:
@@ -316,14 +318,21 @@ class Tr:
 
     COQTY = {"nat": "nat", "bool": "bool", "key": "K", "val": "V", "optval": "option V", "allow": "allow", "peek": "bool",
              "liter": "iter", "mit": "option K", "eref": "nat", "unit": "unit", "kvrange": "list (K * V)", "krange": "list K",
-             "fillrange": "list (K * option V)", "outvec": "list (K * option V)", "time": "Z", "dur": "Z", "durms": "Z"}
+             "fillrange": "list (K * option V)", "outvec": "list (K * option V)", "time": "Z", "dur": "Z", "durms": "Z", "eptr": "option nat"}
 
     # ---- expressions: returns (list of bind lines, term, kind); may update the state name
     def E(self, c, st, env):
+        k = c["k"]
+        if k == "member" and c["a"] and c["a"][0]["k"] == "ref" and c["a"][0]["n"] in env and env[c["a"][0]["n"]][1] == "eptr":
+            # p->m_x : dereferencing a null pointer is undefined
+            x = self.fresh("pe")
+            env2 = dict(env)
+            env2["__deref"] = (x, "eref")
+            bb, t, kd = self.E(dict(c, a=[dict(k="ref", t="", n="__deref", a=[])]), st, env2)
+            return ["do %s <- ptr_deref %s;" % (x, env[c["a"][0]["n"]][0])] + bb, t, kd
         r = self.E_ext(c, st, env)
         if r is not None:
             return r
-        k = c["k"]
         if k in ("bin",) and c["n"] in ("&&", "||"):
             # short-circuit: the right operand is evaluated (and may be undefined) only when needed
             b1, t1, k1 = self.E(c["a"][0], st, env)
@@ -336,6 +345,19 @@ class Tr:
             if c["n"] == "&&":
                 return b1 + ["do %s <- (if %s then (" % (x, t1), inner, ") else Ok false);"], x, "bool"
             return b1 + ["do %s <- (if %s then Ok true else (" % (x, t1), inner, "));"], x, "bool"
+        if k == "?CXXNullPtrLiteralExpr":
+            return [], "None", "eptr"
+        if k == "un" and c["n"] == "pre&" and len(c["a"]) == 1:
+            b, t, kd = self.E(c["a"][0], st, env)
+            if kd == "eref":
+                return b, "(Some %s)" % t, "eptr"
+            raise Unsupported("address of %s" % kd)
+        if k == "bin" and c["n"] in ("==", "!=") and len(c["a"]) == 2:
+            ks = [self.E(x, [st[0]], env) for x in c["a"]]
+            if [x[2] for x in ks] == ["eptr", "eptr"] and "None" in (ks[0][1], ks[1][1]):
+                other = ks[0] if ks[1][1] == "None" else ks[1]
+                tm = "(opt_has_value %s)" % other[1]
+                return other[0], tm if c["n"] == "!=" else "(negb %s)" % tm, "bool"
         if k == "?ConditionalOperator" and len(c["a"]) == 3:
             b0, t0, k0 = self.E(c["a"][0], st, env)
             st1, st2 = [st[0]], [st[0]]
